@@ -5,10 +5,32 @@ META = {'bounds': 'fragments <= 8-14 bytes with the line structure fixed by a sh
         'assumptions': ['layers B/C are recorders', 'fixed-size in_buf/out_buf and bstr_alloc'], 'trusted_base': ['harness/stream/*_split.c driver-loop replica (DATA/DATA_BUFFER branch is the real static code)']}
 def obligations(tier):
     obs = []
+    T = 'thorough'
+    # request side: every field byte symbolic
     obs += so.split('req', 1, 'xx\r\n\r\ny')
-    obs += so.split('req', 1, 'x:x\r\n x\r\n\r\n')
+    obs += so.split('req', 1, 'x:x\r\n x\r\n\r\n', cuts=(3, 4, 5, 6, 8))
     obs += so.split('req', 1, 'xx\n\ny')
-    obs += so.split('req', 2, 'xx x\r\nx:\r\n')
-    obs += so.split('req', 3, 'GET x\r\n')
-    obs += so.split('res', 1, 'xx\r\n\r\ny', kfs=['F1-lfcr-at-cut'], nostd=True)
+    obs += so.split('req', 2, 'x x\r\ny', nohdr=True)
+    obs += so.split('req', 2, 'xx x x\ny', nohdr=True)
+    obs += so.split('req', 3, 'GET x\r\n', cuts=(1, 3, 4, 6))
+    # response side, quick: line structure and field letters literal, the bytes the heuristics look at symbolic
+    obs += so.split('res', 1, 'ab\r\n\r\ny', cuts=(4, 5), kfs=['F1-lfcr-at-cut'], nostd=True, timeout=1200)
+    obs += so.split('res', 1, 'a:b\r\n c\r\n\r\ny', cuts=(5,), kfs=['C03-res-fold-at-cut'], kf_only=True, nostd=True)
+    obs += so.split('res', 3, 'HTTPx\r\n', cuts=(2,), kfs=['C03-res-finalize-unread'], kf_only=True, nostd=True)
+    obs += so.split('res', 3, 'HTTPx\r\n', cuts=(5, 6), nostd=True)
+    obs += so.split('res', 2, 'HTTPx\r\ny', nostd=True, nohdr=True)
+    obs += so.split('res', 2, 'HTTP/1.1 2dd x\r\ny', cuts=(4, 9, 12, 15, 16), nostd=True, nohdr=True)
+    c6 = __import__('C06').obligations('quick')
+    obs += [o for o in c6 if '.chunked.' in o.name]
+    if tier == T:
+        obs += so.split('req', 1, 'x:x\r\n x\r\n\r\n', cuts=(1, 2, 7, 9, 10), tier=T)
+        obs += so.split('req', 3, 'GET x\r\n', cuts=(2, 5), tier=T)
+        obs += so.split('res', 1, 'ab\r\n\r\ny', cuts=(1, 2, 3, 6), kfs=['F1-lfcr-at-cut'], nostd=True, tier=T, timeout=2400)
+        obs += so.split('res', 1, 'a:b\n\ny', kfs=['F1-lfcr-at-cut'], nostd=True, tier=T, timeout=2400)
+        obs += so.split('res', 1, 'a:b\r\n c\r\n\r\ny', cuts=(1, 2, 3, 4, 6, 7, 8, 9, 10, 11), kfs=['F1-lfcr-at-cut'], nostd=True, tier=T, timeout=3000, mem_gb=12)
+        obs += so.split('res', 1, 'xx\r\n\r\ny', kfs=['F1-lfcr-at-cut'], nostd=True, tier=T, timeout=2400, mem_gb=12)
+        obs += so.split('res', 1, 'x\n x\n\n', cuts=(1, 3, 4, 5, 6), kfs=['F1-lfcr-at-cut'], nostd=True, tier=T, timeout=2400, mem_gb=12)
+        obs += so.split('res', 1, 'xx\n\ny', nostd=True, tier=T, timeout=2400, mem_gb=12)
+        obs += so.split('req', 1, 'x:x\r\n\tx\r\n\r\n', tier=T, timeout=1500)
+        obs += so.split('req', 2, 'x x\n\n', tier=T, timeout=2400, mem_gb=20)
     return obs
